@@ -25,7 +25,10 @@ def main():
     ap.add_argument("--confirm", action="store_true")
     ap.add_argument("--tier", default="quick")
     ap.add_argument("--tests", default="--lib")
+    ap.add_argument("--slot", default="0", help="parallel evaluation slot (separate scratch directories)")
     a = ap.parse_args()
+    global EV
+    EV = os.path.join("/tmp/mt_eval", "slot" + a.slot)
     mdir = os.path.abspath(a.mutant)
     name = os.path.basename(os.path.dirname(mdir.rstrip("/"))) + "_" + os.path.basename(mdir.rstrip("/"))
     os.makedirs(EV, exist_ok=True)
